@@ -195,6 +195,17 @@ def ensure(config="default", repo=None, verbose=False):
         return d
 
 
+def reference_crate_dir(repo, name):
+    """source directory of a dependency, located with `cargo metadata --offline` (never a hard-coded path)."""
+    r = subprocess.run(["cargo", "metadata", "--offline", "--format-version", "1"], cwd=repo, capture_output=True, text=True, env=_env())
+    if r.returncode != 0:
+        return None
+    for p in json.loads(r.stdout)["packages"]:
+        if p["name"] == name:
+            return os.path.join(os.path.dirname(p["manifest_path"]), "src")
+    return None
+
+
 def ensure_proto(repo=None):
     """run E3 on the current tree; returns path of the schema json."""
     repo = repo or REPO
@@ -209,7 +220,8 @@ def ensure_proto(repo=None):
             return out
         os.makedirs(d, exist_ok=True)
         tmp = out + ".tmp.%d" % os.getpid()
-        r = subprocess.run([PROTO, repo, tmp], capture_output=True, text=True, env=_env(), cwd=repo)
+        refdir = reference_crate_dir(repo, "osmosis-std")
+        r = subprocess.run([PROTO, repo, tmp] + ([refdir] if refdir else []), capture_output=True, text=True, env=_env(), cwd=repo)
         if r.returncode != 0:
             raise FactError("protoschema failed:\n" + r.stderr[-4000:])
         os.rename(tmp, out)
